@@ -26,3 +26,88 @@ package opengraph
 //@ func (PrefixNameList).setDefault()
 //@   requires prefixes != nil
 //@   assigns maps
+
+// C14: what an accepted OpenGraph block provides: each getter is a direct reading of the property table / the
+// structured-property parsers filled by parseMetaTags.
+//@ func (*Parser).Title()
+//@   requires ps != nil
+//@   assigns nothing
+//@   ensures [C14] #og-title result == ps.propertyTable["title"]
+
+//@ func (*Parser).Type()
+//@   requires ps != nil
+//@   assigns nothing
+//@   ensures [C14] #og-type-article-only result == ite(strings.ToLower(ps.propertyTable["type"]) == "article", "Article", "")
+
+//@ func (*Parser).URL()
+//@   requires ps != nil
+//@   assigns nothing
+//@   ensures [C14] #og-url result == ps.propertyTable["url"]
+
+//@ func (*Parser).Images()
+//@   requires ps != nil
+//@   assigns nothing
+//@   ensures [C14] #og-images result == ps.imageParser.ImageList
+
+//@ func (*Parser).Description()
+//@   requires ps != nil
+//@   assigns nothing
+//@   ensures [C14] #og-description result == ps.propertyTable["description"]
+
+//@ func (*Parser).Publisher()
+//@   requires ps != nil
+//@   assigns nothing
+//@   ensures [C14] #og-site-name result == ps.propertyTable["site_name"]
+
+//@ func (*Parser).Copyright()
+//@   assigns nothing
+//@   ensures [C14] #og-has-no-copyright result == ""
+
+//@ func (*Parser).OptOut()
+//@   assigns nothing
+//@   ensures [C14] #og-has-no-opt-out !result
+
+//@ func (*Parser).Article()
+//@   requires ps != nil
+//@   ensures [C14] #og-article-record implies(result != nil, result.PublishedTime == ps.propertyTable["published_time"] && result.ModifiedTime == ps.propertyTable["modified_time"] &&
+//@              result.ExpirationTime == ps.propertyTable["expiration_time"] && result.Section == ps.propertyTable["section"] && result.Authors == ps.articleParser.Authors)
+//@   ensures [C14] #og-no-article-when-empty (result == nil) == (ps.propertyTable["published_time"] == "" && ps.propertyTable["modified_time"] == "" && ps.propertyTable["expiration_time"] == "" &&
+//@              ps.propertyTable["section"] == "" && len(ps.articleParser.Authors) == 0)
+
+//@ func (*Parser).Author()
+//@   requires ps != nil
+//@   assigns nothing
+//@   ensures [C14] #og-author-is-the-profile-name result == ite(!ps.profileParser.isProfileType, "", ite(ps.propertyTable["first_name"] != "" && ps.propertyTable["last_name"] != "",
+//@              ps.propertyTable["first_name"] + " " + ps.propertyTable["last_name"], ps.propertyTable["first_name"]))
+
+//@ func (*ProfilePropParser).GetFullName(propertyTable)
+//@   requires pp != nil
+//@   assigns nothing
+//@   ensures [C14] #profile-name result == ite(!pp.isProfileType, "", ite(propertyTable["first_name"] != "" && propertyTable["last_name"] != "",
+//@              propertyTable["first_name"] + " " + propertyTable["last_name"], propertyTable["first_name"]))
+
+// profile:* properties are stored only when og:type is "profile" (looked up once, when the first such tag is parsed;
+// parseMetaTags stores og:type before any other tag)
+//@ func (*ProfilePropParser).Parse(property, content, propertyTable)
+//@   requires pp != nil
+//@   ensures [C14] #profile-properties-only-for-profile-type result == pp.isProfileType && pp.typeChecked &&
+//@              implies(!old(pp.typeChecked), pp.isProfileType == (strings.ToLower(propertyTable["type"]) == "profile")) && implies(old(pp.typeChecked), pp.isProfileType == old(pp.isProfileType))
+
+// article:* properties are stored only when og:type is "article"; article:author values are collected in order
+//@ func (*ArticlePropParser).Parse(property, content, propertyTable)
+//@   requires pp != nil
+//@   ensures [C14] #article-properties-only-for-article-type pp.isArticleType == (old(pp.isArticleType) || strings.ToLower(propertyTable["type"]) == "article") &&
+//@              result == (pp.isArticleType && property != "author")
+//@   ensures [C14] #article-authors-collected implies(pp.isArticleType && property == "author", len(pp.Authors) == old(len(pp.Authors)) + 1 && pp.Authors[len(pp.Authors)-1] == content) &&
+//@              implies(!(pp.isArticleType && property == "author"), pp.Authors == old(pp.Authors))
+
+// og:image starts a new image structure; image:* properties fill the current one; nothing goes to the property table
+//@ func (*ImagePropParser).Parse(property, content, propertyTable)
+//@   requires pp != nil
+//@   ensures [C14] #image-properties-are-structured !result && implies(property == "image", len(pp.ImageList) == old(len(pp.ImageList)) + 1 && pp.ImageList[len(pp.ImageList)-1].Root == content)
+
+// after Verify every image has a URL (its own image:url or else the og:image value) and no pending root
+//@ func (*ImagePropParser).Verify()
+//@   requires pp != nil
+//@   ensures [C14] #verified-images-have-urls len(pp.ImageList) <= old(len(pp.ImageList)) && forall(i, 0 <= i && i < len(pp.ImageList), pp.ImageList[i].URL != "" && pp.ImageList[i].Root == "")
+//@   loop 0 invariant len(validImages) <= ITER && forall(i, 0 <= i && i < len(validImages), validImages[i].URL != "" && validImages[i].Root == "")
